@@ -63,7 +63,8 @@ class QueryPlanner:
                     integration_name = predictor['integration_name']
                 else:
                     integration_name = self.predictor_namespace
-                    predictor['integration_name'] = integration_name
+                    # don't change the caller's metadata
+                    predictor = dict(predictor, integration_name=integration_name)
                 idx = f'{integration_name}.{predictor["name"]}'.lower()
                 self.predictor_info[idx] = predictor
                 _projects.add(integration_name.lower())
@@ -75,7 +76,7 @@ class QueryPlanner:
                         integration_name = predictor['integration_name']
                     else:
                         integration_name = self.predictor_namespace
-                        predictor['integration_name'] = integration_name
+                        predictor = dict(predictor, integration_name=integration_name)
                     name = f'{integration_name}.{name}'.lower()
                     _projects.add(integration_name.lower())
 
@@ -118,8 +119,8 @@ class QueryPlanner:
         idx = '.'.join(idx_ar).lower()
         info = self.predictor_info.get(idx)
         if info is not None:
-            info['version'] = version
-            info['name'] = name
+            # the version belongs to this reference, not to the shared metadata
+            info = dict(info, version=version, name=name)
         return info
 
     def prepare_integration_select(self, database, query):
